@@ -244,7 +244,7 @@ def _encoder(d):
     from pylatexenc import latexencode as le
     kw = dict(non_ascii_only=d['nao'], conversion_rules=_mk_rules(d['rules']),
               replacement_latex_protection=_mk_prot(d['prot']), unknown_char_policy=_mk_policy(d['policy']),
-              unknown_char_warning=False)
+              unknown_char_warning=(len(d['s']) % 2 == 1))       # the warning path must not change the result
     if d['chunks']:
         kw['latex_string_class'] = LatexChunkList
     if d['mode'] == 'plain':
